@@ -31,6 +31,27 @@ type Loader struct {
 	// epoch counts cache invalidations: a file read before an invalidation must not be
 	// cached after it
 	epoch uint64
+	// openContent returns the text of a file that is open in the editor; it takes precedence
+	// over the file on disk (and is never cached)
+	openContent func(path string) (string, bool)
+}
+
+// SetOpenContentProvider makes included files that are open in the editor resolve to their
+// current (possibly unsaved) text instead of the file on disk.
+func (l *Loader) SetOpenContentProvider(provider func(path string) (string, bool)) {
+	l.mu.Lock()
+	defer l.mu.Unlock()
+	l.openContent = provider
+}
+
+func (l *Loader) openContentOf(path string) (string, bool) {
+	l.mu.RLock()
+	provider := l.openContent
+	l.mu.RUnlock()
+	if provider == nil {
+		return "", false
+	}
+	return provider(path)
 }
 
 func NewLoader() *Loader {
@@ -245,7 +266,15 @@ func (l *Loader) loadSingleInclude(
 	epoch := l.epoch
 	l.mu.RUnlock()
 
-	if !cached {
+	if buffer, open := l.openContentOf(includePath); open {
+		// the editor's text of an open document wins over the file on disk
+		if int64(len(buffer)) > limits.MaxFileSizeBytes {
+			return fail(ErrorFileTooLarge, fmt.Sprintf("included file too large: %d bytes (max %d)", len(buffer), limits.MaxFileSizeBytes))
+		}
+		var parseErrs []parser.ParseError
+		journal, parseErrs = parser.Parse(buffer)
+		errors = append(errors, parseErrorsToLoadErrors(includePath, parseErrs)...)
+	} else if !cached {
 		info, err := os.Stat(includePath)
 		if err != nil {
 			return fail(ErrorFileNotFound, fmt.Sprintf("cannot read included file: %v", err))
